@@ -803,6 +803,9 @@ def chunked(inp):
     except ReadBudgetExceeded as e:
         return {"fails": True, "expected": "read() returns once the peer has closed", "observed": f"does not terminate: {e}",
                 "encoded": enc.hex()[:120], "segments": segs}
+    except Exception as e:  # noqa  the wrapper's contracts raise nothing on a well-formed body, however it is segmented (C04, C12)
+        return {"fails": True, "expected": want.hex()[:80], "observed": f"raises {type(e).__name__}: {e}"[:160],
+                "encoded": enc.hex()[:120], "segments": segs}
     bad = (not want.startswith(got)) if trunc is not None else got != want
     return {"fails": bad, "expected": want.hex()[:80], "observed": got.hex()[:80], "encoded": enc.hex()[:120], "segments": segs}
 
